@@ -2528,7 +2528,10 @@ class DataFrame(FrameBase):
 
     @property
     def shape(self):
-        return self.size / max(len(self.columns), 1), len(self.columns)
+        if len(self.columns) == 0:
+            # the size of a frame without columns is 0, whatever its length
+            return self.index.size, 0
+        return self.size / len(self.columns), len(self.columns)
 
     @property
     def ndim(self):
